@@ -76,6 +76,9 @@ func genC20(seed uint64, idx int, tier string) *Scenario {
 				}
 				ej, _ := json.Marshal(p)
 				a.Ops = append(a.Ops, Op{K: "probe", Exp: ej})
+				if r.Chance(0.03) {
+					a.Ops = append(a.Ops, Op{K: "eintr"}) // epoll_wait is interrupted: the loop must simply go on
+				}
 				if g := []int64{0, 0, 0, 10, 1000, 4000}[r.Intn(6)]; g > 0 && i < n-1 {
 					a.Ops = append(a.Ops, Op{K: "sleep", Ms: g})
 				}
@@ -165,6 +168,10 @@ func runC20(t *testing.T, sc *Scenario) Result {
 				lastProbeMs[a.Src] = w.nowMs()
 				return
 			}
+			if op.K == "eintr" {
+				sys.InjectEINTR(1)
+				return
+			}
 			if op.K != "probe" {
 				return
 			}
@@ -213,7 +220,11 @@ func runC20(t *testing.T, sc *Scenario) Result {
 			time.Sleep(time.Duration(ms) * time.Millisecond)
 			synctest.Wait()
 		}
+		w.Obs.Extra["eintr"] = sys.EINTRs
 	})
+	if n, _ := obs.Extra["eintr"].(int); n > 0 {
+		res.fault("epoll-eintr", n)
+	}
 	res.Digest = traceDigest(obs, map[string]bool{"portscan.duration": true})
 	res.Steps, res.SimMs = obs.Steps, obs.SimMs
 	res.Nontriv = len(sc.Actors) > 1
